@@ -4,12 +4,17 @@ A worker is `python -u -m harness.worker <module> <function>`; it reads one JSON
 stdin and answers one JSON line on stdout.  A worker that dies (segfault, abort) is an observation:
 the job it was running gets {"crash": returncode}, and a new worker is started for the rest."""
 import json
+import os
 import queue
+import select
 import subprocess
 import sys
 import threading
 
 from . import common
+
+
+JOB_TIMEOUT = int(os.environ.get("VERIF_JOB_TIMEOUT", "300"))
 
 
 class _Worker:
@@ -22,11 +27,19 @@ class _Worker:
                                   stdin=subprocess.PIPE, stdout=subprocess.PIPE, stderr=subprocess.DEVNULL,
                                   text=True, env=common.impl_env(), cwd=common.VERIF, bufsize=1)
 
-    def call(self, job):
+    def call(self, job, timeout=None):
+        timeout = timeout or JOB_TIMEOUT
         try:
             self.p.stdin.write(json.dumps(job) + "\n")
             self.p.stdin.flush()
             while True:
+                ready, _, _ = select.select([self.p.stdout], [], [], timeout)
+                if not ready:
+                    # the implementation did not return: an observation (like a crash), not a harness failure
+                    self.p.kill()
+                    self.p.wait()
+                    self.start()
+                    return {"crash": "hang (no answer within %ds)" % timeout}
                 line = self.p.stdout.readline()
                 if line == "":
                     raise BrokenPipeError
